@@ -53,6 +53,10 @@ type FS struct {
 	Log   []Op
 	// FailAt >= 0: the operation with this log index fails with an injected error (and is not applied).
 	FailAt int
+	// Before, if set, runs before the operation with log index idx is applied (on the goroutine that performs it): the
+	// place to let something else happen exactly between two file-system steps of the code under test. It must not
+	// call back into vfs.
+	Before func(idx int, op Op)
 }
 
 var cur *FS
@@ -66,6 +70,9 @@ var ErrInjected = errors.New("vfs: injected I/O error")
 
 func (f *FS) log(op Op) error {
 	idx := len(f.Log)
+	if f.Before != nil {
+		f.Before(idx, op)
+	}
 	f.Log = append(f.Log, op)
 	if f.FailAt == idx {
 		return ErrInjected
